@@ -352,8 +352,13 @@ def run_responses(ctx):
     for i in range(n):
         ruri = rng.choice(["https://c.example/cb", "https://c.example/cb?x=1", "https://c.example/cb?x=a%20b&y="])
         code = rng.choice(TEXT_POOL) or "c"
-        state = rng.choice(TEXT_POOL[:12]) or "s"
-        expect = rng.choice([state, state, state, "other", None, ""])
+        state = rng.choice(TEXT_POOL[:12] + ["a+b", "a b", "Ab+/c9==", "x+y+z", "st%2Bate", "s%20t", "ST", "st "]) or "s"
+        # what the client expects: the state it sent, nothing, something else, or a LOOK-ALIKE of what comes back (spaces for
+        # plus signs and back, percent-escapes, case, surrounding blanks, one character more or less)
+        alike = [state.replace("+", " "), state.replace(" ", "+"), state.replace("+", "%2B"), state.replace("%2B", "+").replace("%20", " "), state.lower(), state.upper(),
+                 state.strip(), state + " ", state[:-1], state + "x"]
+        alike = [a for a in alike if a != state and a] or ["other"]
+        expect = rng.choice([state, state, state, "other", None, "", rng.choice(alike), rng.choice(alike)])
         params = [("code", code), ("state", state)] if rng.random() < 0.85 else [("state", state)]
         url = U.add_params_to_uri(ruri, params)
         try:
